@@ -59,8 +59,8 @@ func (m *Model) RunLexMode(s *Sink, rule string) {
 					}
 					continue
 				}
-				if sc == fn {
-					continue
+				if sc == fn || sc == nt {
+					continue // recursion into NextToken is judged at NextToken itself (whatever it returns obeys this rule)
 				}
 				for k := range builds(sc, depth+1) {
 					if strings.HasPrefix(k, "param:") {
